@@ -38,6 +38,7 @@ def op_strategy(draw, k):
         "obtain_vertices", "obtain_leaf_vertices", "get_complete_accessor", "get_complete_accessor", "find_vertices",
         "filter_valid", "connect_valid_graph", "connect_coding_graph", "connect_coding_graph",
         "approximate_capacity", "calculate_intersection_score", "create_random_shuffles", "complete_then_trim",
+        "prune_then_trim", "prune_then_trim",
         "calculus", "bit_to_number", "number_to_bit", "dna_to_number", "number_to_dna"]))
     op = {"f": f}
     if f in VERBOSE_OPS:
@@ -53,6 +54,8 @@ def op_strategy(draw, k):
         op.update(indel=draw(st.booleans()), check_len=draw(st.sampled_from([0, 1, 1, 2, 5])))
     elif f == "path_matching":
         op.update(indel=draw(st.booleans()), loc=draw(st.integers(0, 2 * k)))
+    elif f == "prune_then_trim":
+        op.update(threshold=draw(st.sampled_from([1, 1, 2])))
     elif f in ("latter_map_to_accessor", "remove_useless"):
         op.update(threshold=draw(st.sampled_from([None, 1, 2] if f == "latter_map_to_accessor" else [1, 2, 3])))
     elif f == "obtain_leaf_vertices":
@@ -164,8 +167,11 @@ def evaluate(case):
             scribble(twin_raw, bundle)
             labels.append("verbose_twin")
         scribble(raw, bundle)
-        if snapshot(bundle) != base:
-            raise AssertionError("harness scribbled on a shared argument after %r" % op)
+        after = snapshot(bundle)
+        if after != base:
+            changed = [name for name in base if base[name] != after[name]]
+            return bad("the result of call %d %r shares mutable state with the argument(s) %r: overwriting the "
+                       "caller-owned result changed them" % (index, op, changed), labels)
         if isinstance(result, dict) and "raised" in result:
             labels.append("raised")
     fresh = history.build_bundle(desc)
@@ -178,7 +184,9 @@ def evaluate(case):
         # another hash seed than this process (0): results must not depend on set/dict iteration order
         env = dict(os.environ, VERIF_REPO=REPO, PYTHONPATH=VERIF, PYTHONHASHSEED=str(1 + len(json.dumps(ops)) % 9973),
                    VERIF_NO_POOL="1")
-        done = subprocess.run([sys.executable, "-m", "pbt.history"], input=json.dumps({"bundle": desc, "ops": ops}),
+        flags = ["-O"] if len(ops) % 2 == 0 else []  # half of the fresh interpreters run with assertions stripped
+        done = subprocess.run([sys.executable] + flags + ["-m", "pbt.history"],
+                              input=json.dumps({"bundle": desc, "ops": ops}),
                               capture_output=True, text=True, timeout=120, env=env, cwd=VERIF)
         if done.returncode != 0:
             raise AssertionError("fresh interpreter failed: " + done.stderr[-400:])
